@@ -334,6 +334,16 @@ func (e *Eng) evalCallInner(st *State, call *ast.CallExpr) []*Val {
 	}
 	// address-taken locals passed as &x may be overwritten by the callee
 	defer e.havocAddrTaken(st, call)
+	if e.con != nil && e.con.Safe && strings.Contains(key, repoModule) && !strings.HasPrefix(key, "dyn:") && !strings.HasPrefix(key, "field:") {
+		// `safe` is about gqlgen's OWN code: a callee that is gqlgen code must itself be under a contract that says
+		// something about its panics (safe / nopanic / noescape), or be trusted explicitly (a listed assumption) -
+		// otherwise moving code into a new helper would move it out of the claim
+		if con == nil {
+			e.oblige(st, "safe", "own-callee-without-contract "+shortKey(key), "false", call.Pos())
+		} else if !con.Trusted && !(con.Safe || con.NoPanic || con.NoEscape || con.AssumeNoPanic) {
+			e.oblige(st, "safe", "own-callee-contract-silent-on-panics "+shortKey(key), "false", call.Pos())
+		}
+	}
 	if con == nil {
 		// unknown callee: havoc heap, may panic
 		if e.con != nil && e.con.NoPanic {
